@@ -209,6 +209,8 @@ typecommonreal(struct type *t1, unsigned w1, struct type *t2, unsigned w2)
 		return t1;
 	if (t1->size < t2->size)
 		return t2;
+	if (t2->kind == TYPEENUM)
+		t2 = t2->base;
 	if (t2 == &typelong)
 		return &typeulong;
 	if (t2 == &typellong)
